@@ -46,6 +46,19 @@ def run_case(run, drv, case, exp, want_full=True):
                 for fn in fns:
                     st = os.stat(os.path.join(base, fn))
                     stamps[os.path.join(base, fn)] = (st.st_atime_ns, st.st_mtime_ns)
+        reused = None
+        if case.get("reuse_checker") and os.path.exists(content0):
+            # a long-lived caller keeps ONE Checker and asks it again after the content changed
+            from harness.common import quiet, use_repo
+            use_repo()
+            from torrentfile.recheck import Checker
+            try:
+                with quiet():
+                    reused = Checker(mpath, content0)
+                    reused.results()
+                    list(zip(range(2), reused.iter_hashes()))       # ... and an abandoned iteration
+            except Exception:
+                reused = None
         rc.damage_disk(root, case["single"], state)
         for path, ns in stamps.items():
             if os.path.exists(path):
@@ -69,6 +82,17 @@ def run_case(run, drv, case, exp, want_full=True):
         except Exception as exc:
             run.fail("impl-vs-spec", case, {"raised": repr(exc)})
             return None
+        if reused is not None and os.path.exists(content0) and content == content0:
+            from harness.common import quiet
+            try:
+                with quiet():
+                    again = reused.results()
+            except Exception as exc:
+                again = repr(exc)
+            if again != result:
+                run.fail("impl-vs-spec", dict(case, reused_checker=True),
+                         {"why": "a Checker object asked again after the content changed answers differently "
+                                 "from a new one", "reused": again, "fresh": result})
         exp[id(case)] = (fmt(stream), fmt(ref))
         rc_model(drv, case, raw, files, state)
         from harness.props.c05 import full_model
@@ -183,6 +207,14 @@ def run(tier, seed, replay=None):
     cases = [replay["case"]] if replay else corpus_cases("C16") + \
         [rc.make_case(run.rng, tier, damage=(i % 5 != 0)) for i in range(200 if tier == "quick" else 1500)] + \
         [zero_case(run.rng, tier) for _ in range(40 if tier == "quick" else 300)]
+    if not replay:
+        # fixed shapes: a foreign v1 metafile whose padding entries end INSIDE a piece (files aligned
+        # to 16 KiB, pieces of 64 KiB), intact and with one flipped byte; reused Checker objects
+        from harness.common import Blob
+        fx = [("a", Blob.rand(3, 20000).token()), ("b", Blob.rand(4, 70000).token()), ("c", Blob.rand(5, 5).token())]
+        for dmg in ([], [["flip", "b", 40000]], [["trunc", "a", 7]]):
+            cases.append({"files": fx, "pl": 65536, "version": 1, "single": False, "source": "ref", "creator": "v1",
+                          "via_parent": bool(dmg), "damage": dmg, "pad_to": 16384, "reuse_checker": True})
     import contextlib
     for i, case in enumerate(cases):
         if not replay and i % 3 == 0:
